@@ -10,6 +10,11 @@ EXTENDS Naturals, Integers, Sequences, SequencesExt, FiniteSets, Bitwise
 
 Byte == 0..255
 
+\* two lower-case hex digits of a byte
+HexDigits == "0123456789abcdef"
+HexDigit(n) == SubSeq(HexDigits, n + 1, n + 1)
+Hex2(b) == HexDigit(b \div 16) \o HexDigit(b % 16)
+
 IsBytes(s) == \A i \in 1..Len(s) : s[i] \in Byte
 
 \* Slice(s, a, b): bytes a..b-1 of s, 0-based, clamped like a Python slice s[a:b]
